@@ -117,6 +117,58 @@ def _c14_damage_kind(v, m):
     """exactly the wheel_rejects inputs of one damage kind (the kind names the class: every input of the kind is affected)"""
     return v["input"].get("damage") == m["damage"]
 
+# ---------------------------------------------------------------- C05 / C06 (SpecifierSet)
+def _c05_all_clauses(inp):
+    out = []
+    for k in ("clauses", "clauses2", "a", "b", "c"):
+        v = inp.get(k)
+        if isinstance(v, list):
+            out += [x for x in v if isinstance(x, str)]
+    return out
+
+
+@matcher("c05_equal_members_match_differently")
+def c05_equal_members_match_differently(violation, m):
+    """the input holds two clauses with operator m['operator'] that are equal as Specifier objects (so a set keeps
+    only the first inserted one) although they disagree on one of the candidates"""
+    from packaging.specifiers import Specifier
+    inp = violation["input"]
+    cl = [Specifier(c) for c in _c05_all_clauses(inp)]
+    cands = inp.get("cands") or []
+    for i, x in enumerate(cl):
+        for y in cl[i + 1:]:
+            if x.operator == y.operator == m["operator"] and x == y and str(x) != str(y):
+                if any(x.contains(c, prereleases=True) != y.contains(c, prereleases=True) for c in cands):
+                    return True
+    return False
+
+
+@matcher("c05_comma_in_arbitrary")
+def c05_comma_in_arbitrary(violation, m):
+    """str round trip of a set holding an `===` member whose text contains a comma"""
+    from packaging.specifiers import Specifier
+    for c in _c05_all_clauses(violation["input"]):
+        s = Specifier(c)
+        if s.operator == "===" and "," in s.version:
+            return True
+    return False
+
+
+@matcher("c06_spec_filter_override_false")
+def c06_spec_filter_override_false(violation, m):
+    """Specifier.filter on a specifier whose stored override is an explicit False, called without argument:
+    the law holds for every other (override, argument) combination of the same input"""
+    inp = violation["input"]
+    if inp.get("how") != "spec":
+        return False
+    combos = inp.get("combos") or []
+    if [False, None] not in combos:
+        return False
+    from props.C06 import PROP
+    rest = dict(inp)
+    rest["combos"] = [c for c in combos if c != [False, None]]
+    return PROP.check_law("filter_contains", rest)[0]
+
 
 # ---------------------------------------------------------------- C03 / C04
 def _c03_tokens(text):
